@@ -12,7 +12,9 @@ use core::result::Result;
 use crate::writer_::Indentation;
 use crate::se_::{XmlName, SeError, is_xml_name};
 use crate::seesc_::{QuoteLevel, QuoteTarget};
-use crate::sec_::{Write, Serialize, ContentSerializer, ElementSerializer, Struct, Map, Tuple, SimpleSeq, Indent, WriteResult, TEXT_KEY, errmsg_, errstr_, BSeq, tag_empty, ind_ok};
+use crate::sec_::{Write, Serialize, ContentSerializer, ElementSerializer, Struct, Map, Tuple, SimpleSeq, Indent, WriteResult, TEXT_KEY, errmsg_, errstr_, BSeq, tag_empty, ind_ok, tag_open, tag_close, bool_text, disp, char_bytes};
+use crate::seesc_::p_list;
+use crate::escfn_::spec_escape;
 pub mod ser { pub use crate::sec_::{Serializer, Serialize}; }
 use crate::sec_::Serializer as _;
 
@@ -210,6 +212,146 @@ impl<'w, 'r, W: Write> ser::Serializer for Serializer<'w, 'r, W> {
                     && (*final(self.ser.writer)).out() == (*old(self.ser.writer)).out() + self.ser.pre() + tag_empty(k.0.spec_bytes(), self.ser.expand_empty_elements)),
         {
             self.ser(errs_())?.serialize_str(value)
+        }
+//@end
+//@extract se::Serializer::serialize_bool | src/se/mod.rs :: impl<'w, 'r, W: Write> ser::Serializer for Serializer<'w, 'r, W> :: invoke forward :: fn serialize_bool | serves=C13,C19 features=serialize
+//@rewrite &concat!("`", stringify!(bool), "`") ==> errs_()
+        fn serialize_bool(self, value: bool) -> (r: Result<Self::Ok, Self::Error>)
+            ensures // a primitive at the top level is an element named by the root tag -- an error without one
+                r is Ok ==> self.root_tag is Some,
+                r matches Ok(x) ==> x is Element && (self.root_tag matches Some(k)
+                    && (*final(self.ser.writer)).out() == (*old(self.ser.writer)).out() + self.ser.pre() + tag_open(k.0.spec_bytes()) + bool_text(value) + tag_close(k.0.spec_bytes())),
+        {
+            self.ser(errs_())?.serialize_bool(value)
+        }
+//@end
+//@extract se::Serializer::serialize_i8 | src/se/mod.rs :: impl<'w, 'r, W: Write> ser::Serializer for Serializer<'w, 'r, W> :: invoke forward :: fn serialize_i8 | serves=C13,C19 features=serialize
+//@rewrite &concat!("`", stringify!(i8), "`") ==> errs_()
+        fn serialize_i8(self, value: i8) -> (r: Result<Self::Ok, Self::Error>)
+            ensures // a primitive at the top level is an element named by the root tag -- an error without one
+                r is Ok ==> self.root_tag is Some,
+                r matches Ok(x) ==> x is Element && (self.root_tag matches Some(k)
+                    && (*final(self.ser.writer)).out() == (*old(self.ser.writer)).out() + self.ser.pre() + tag_open(k.0.spec_bytes()) + disp(value) + tag_close(k.0.spec_bytes())),
+        {
+            self.ser(errs_())?.serialize_i8(value)
+        }
+//@end
+//@extract se::Serializer::serialize_i16 | src/se/mod.rs :: impl<'w, 'r, W: Write> ser::Serializer for Serializer<'w, 'r, W> :: invoke forward :: fn serialize_i16 | serves=C13,C19 features=serialize
+//@rewrite &concat!("`", stringify!(i16), "`") ==> errs_()
+        fn serialize_i16(self, value: i16) -> (r: Result<Self::Ok, Self::Error>)
+            ensures // a primitive at the top level is an element named by the root tag -- an error without one
+                r is Ok ==> self.root_tag is Some,
+                r matches Ok(x) ==> x is Element && (self.root_tag matches Some(k)
+                    && (*final(self.ser.writer)).out() == (*old(self.ser.writer)).out() + self.ser.pre() + tag_open(k.0.spec_bytes()) + disp(value) + tag_close(k.0.spec_bytes())),
+        {
+            self.ser(errs_())?.serialize_i16(value)
+        }
+//@end
+//@extract se::Serializer::serialize_i32 | src/se/mod.rs :: impl<'w, 'r, W: Write> ser::Serializer for Serializer<'w, 'r, W> :: invoke forward :: fn serialize_i32 | serves=C13,C19 features=serialize
+//@rewrite &concat!("`", stringify!(i32), "`") ==> errs_()
+        fn serialize_i32(self, value: i32) -> (r: Result<Self::Ok, Self::Error>)
+            ensures // a primitive at the top level is an element named by the root tag -- an error without one
+                r is Ok ==> self.root_tag is Some,
+                r matches Ok(x) ==> x is Element && (self.root_tag matches Some(k)
+                    && (*final(self.ser.writer)).out() == (*old(self.ser.writer)).out() + self.ser.pre() + tag_open(k.0.spec_bytes()) + disp(value) + tag_close(k.0.spec_bytes())),
+        {
+            self.ser(errs_())?.serialize_i32(value)
+        }
+//@end
+//@extract se::Serializer::serialize_i64 | src/se/mod.rs :: impl<'w, 'r, W: Write> ser::Serializer for Serializer<'w, 'r, W> :: invoke forward :: fn serialize_i64 | serves=C13,C19 features=serialize
+//@rewrite &concat!("`", stringify!(i64), "`") ==> errs_()
+        fn serialize_i64(self, value: i64) -> (r: Result<Self::Ok, Self::Error>)
+            ensures // a primitive at the top level is an element named by the root tag -- an error without one
+                r is Ok ==> self.root_tag is Some,
+                r matches Ok(x) ==> x is Element && (self.root_tag matches Some(k)
+                    && (*final(self.ser.writer)).out() == (*old(self.ser.writer)).out() + self.ser.pre() + tag_open(k.0.spec_bytes()) + disp(value) + tag_close(k.0.spec_bytes())),
+        {
+            self.ser(errs_())?.serialize_i64(value)
+        }
+//@end
+//@extract se::Serializer::serialize_u8 | src/se/mod.rs :: impl<'w, 'r, W: Write> ser::Serializer for Serializer<'w, 'r, W> :: invoke forward :: fn serialize_u8 | serves=C13,C19 features=serialize
+//@rewrite &concat!("`", stringify!(u8), "`") ==> errs_()
+        fn serialize_u8(self, value: u8) -> (r: Result<Self::Ok, Self::Error>)
+            ensures // a primitive at the top level is an element named by the root tag -- an error without one
+                r is Ok ==> self.root_tag is Some,
+                r matches Ok(x) ==> x is Element && (self.root_tag matches Some(k)
+                    && (*final(self.ser.writer)).out() == (*old(self.ser.writer)).out() + self.ser.pre() + tag_open(k.0.spec_bytes()) + disp(value) + tag_close(k.0.spec_bytes())),
+        {
+            self.ser(errs_())?.serialize_u8(value)
+        }
+//@end
+//@extract se::Serializer::serialize_u16 | src/se/mod.rs :: impl<'w, 'r, W: Write> ser::Serializer for Serializer<'w, 'r, W> :: invoke forward :: fn serialize_u16 | serves=C13,C19 features=serialize
+//@rewrite &concat!("`", stringify!(u16), "`") ==> errs_()
+        fn serialize_u16(self, value: u16) -> (r: Result<Self::Ok, Self::Error>)
+            ensures // a primitive at the top level is an element named by the root tag -- an error without one
+                r is Ok ==> self.root_tag is Some,
+                r matches Ok(x) ==> x is Element && (self.root_tag matches Some(k)
+                    && (*final(self.ser.writer)).out() == (*old(self.ser.writer)).out() + self.ser.pre() + tag_open(k.0.spec_bytes()) + disp(value) + tag_close(k.0.spec_bytes())),
+        {
+            self.ser(errs_())?.serialize_u16(value)
+        }
+//@end
+//@extract se::Serializer::serialize_u32 | src/se/mod.rs :: impl<'w, 'r, W: Write> ser::Serializer for Serializer<'w, 'r, W> :: invoke forward :: fn serialize_u32 | serves=C13,C19 features=serialize
+//@rewrite &concat!("`", stringify!(u32), "`") ==> errs_()
+        fn serialize_u32(self, value: u32) -> (r: Result<Self::Ok, Self::Error>)
+            ensures // a primitive at the top level is an element named by the root tag -- an error without one
+                r is Ok ==> self.root_tag is Some,
+                r matches Ok(x) ==> x is Element && (self.root_tag matches Some(k)
+                    && (*final(self.ser.writer)).out() == (*old(self.ser.writer)).out() + self.ser.pre() + tag_open(k.0.spec_bytes()) + disp(value) + tag_close(k.0.spec_bytes())),
+        {
+            self.ser(errs_())?.serialize_u32(value)
+        }
+//@end
+//@extract se::Serializer::serialize_u64 | src/se/mod.rs :: impl<'w, 'r, W: Write> ser::Serializer for Serializer<'w, 'r, W> :: invoke forward :: fn serialize_u64 | serves=C13,C19 features=serialize
+//@rewrite &concat!("`", stringify!(u64), "`") ==> errs_()
+        fn serialize_u64(self, value: u64) -> (r: Result<Self::Ok, Self::Error>)
+            ensures // a primitive at the top level is an element named by the root tag -- an error without one
+                r is Ok ==> self.root_tag is Some,
+                r matches Ok(x) ==> x is Element && (self.root_tag matches Some(k)
+                    && (*final(self.ser.writer)).out() == (*old(self.ser.writer)).out() + self.ser.pre() + tag_open(k.0.spec_bytes()) + disp(value) + tag_close(k.0.spec_bytes())),
+        {
+            self.ser(errs_())?.serialize_u64(value)
+        }
+//@end
+//@extract se::Serializer::serialize_f32 | src/se/mod.rs :: impl<'w, 'r, W: Write> ser::Serializer for Serializer<'w, 'r, W> :: invoke forward :: fn serialize_f32 | serves=C13,C19 features=serialize
+//@rewrite &concat!("`", stringify!(f32), "`") ==> errs_()
+        fn serialize_f32(self, value: f32) -> (r: Result<Self::Ok, Self::Error>)
+            ensures // a primitive at the top level is an element named by the root tag -- an error without one
+                r is Ok ==> self.root_tag is Some,
+                r matches Ok(x) ==> x is Element && (self.root_tag matches Some(k)
+                    && (*final(self.ser.writer)).out() == (*old(self.ser.writer)).out() + self.ser.pre() + tag_open(k.0.spec_bytes()) + disp(value) + tag_close(k.0.spec_bytes())),
+        {
+            self.ser(errs_())?.serialize_f32(value)
+        }
+//@end
+//@extract se::Serializer::serialize_f64 | src/se/mod.rs :: impl<'w, 'r, W: Write> ser::Serializer for Serializer<'w, 'r, W> :: invoke forward :: fn serialize_f64 | serves=C13,C19 features=serialize
+//@rewrite &concat!("`", stringify!(f64), "`") ==> errs_()
+        fn serialize_f64(self, value: f64) -> (r: Result<Self::Ok, Self::Error>)
+            ensures // a primitive at the top level is an element named by the root tag -- an error without one
+                r is Ok ==> self.root_tag is Some,
+                r matches Ok(x) ==> x is Element && (self.root_tag matches Some(k)
+                    && (*final(self.ser.writer)).out() == (*old(self.ser.writer)).out() + self.ser.pre() + tag_open(k.0.spec_bytes()) + disp(value) + tag_close(k.0.spec_bytes())),
+        {
+            self.ser(errs_())?.serialize_f64(value)
+        }
+//@end
+//@extract se::Serializer::serialize_char | src/se/mod.rs :: impl<'w, 'r, W: Write> ser::Serializer for Serializer<'w, 'r, W> :: invoke forward :: fn serialize_char | serves=C13,C19 features=serialize
+//@rewrite &concat!("`", stringify!(char), "`") ==> errs_()
+        fn serialize_char(self, value: char) -> (r: Result<Self::Ok, Self::Error>)
+            ensures // a primitive at the top level is an element named by the root tag -- an error without one
+                r is Ok ==> self.root_tag is Some,
+                r matches Ok(x) ==> x is Element && (self.root_tag matches Some(k)
+                    && (*final(self.ser.writer)).out() == (*old(self.ser.writer)).out() + self.ser.pre() + tag_open(k.0.spec_bytes()) + spec_escape(char_bytes(value), p_list(QuoteTarget::Text, self.ser.level)) + tag_close(k.0.spec_bytes())),
+        {
+            self.ser(errs_())?.serialize_char(value)
+        }
+//@end
+//@extract se::Serializer::serialize_bytes | src/se/mod.rs :: impl<'w, 'r, W: Write> ser::Serializer for Serializer<'w, 'r, W> :: invoke forward :: fn serialize_bytes | serves=C13,C19 features=serialize
+//@rewrite &concat!("`", stringify!(&[u8]), "`") ==> errs_()
+        fn serialize_bytes(self, value: &[u8]) -> (r: Result<Self::Ok, Self::Error>)
+            ensures r is Err,
+        {
+            self.ser(errs_())?.serialize_bytes(value)
         }
 //@end
 //@extract se::Serializer::serialize_seq | src/se/mod.rs :: impl<'w, 'r, W: Write> ser::Serializer for Serializer<'w, 'r, W> :: fn serialize_seq | serves=C13 features=serialize
